@@ -555,6 +555,8 @@ def evidence(facts, results):
             "ghost trace: one entry per call of visit, appended at entry (instrumentation is in the contract, not in the code)",
             "override handlers are arbitrary deterministic functions H(node) that do not themselves call back into the tree",
             "induction principle over strict sub-terms (decreases clause checked syntactically)",
+            "a node Kind(f1..fn) is the record of its arguments: guaranteed by the generated constructor (cfg.record checks there is no "
+            "user-written __post_init__/__init__/__new__/__getattr(ibute)__ and no init=False field; otherwise undecided)",
             "'no backend translation modifies its input' is carried by the frame/ownership clauses of the other properties' "
             "families (every list mutation site yields an own.fresh obligation; attribute writes on nodes raise FrozenInstanceError)",
         ],
